@@ -44,7 +44,7 @@ import sys
 import time
 
 VERIF = os.path.dirname(os.path.dirname(os.path.abspath(__file__)))
-DEFAULT_TARGET_DIR = os.path.join(VERIF, '.cache', 'kani-target')
+DEFAULT_TARGET_DIR = os.environ.get('VERIF_KANI_TARGET') or os.path.join(VERIF, '.cache', 'kani-target')
 LOG_ROOT = os.path.join(VERIF, 'out', 'kani-logs')
 
 KANI_FLAGS = ['-Z', 'function-contracts', '-Z', 'stubbing',
